@@ -427,6 +427,10 @@ def r_squeeze(c):
     gens = find(loop, f"tuple(($d for $i, $d in enumerate({descrs}) if $i not in $$x))")
     ok = bool(gens) and all(
         is_b(g["@node"].args[0].generators[0].ifs[0].comparators[0]) for g in gens)
+    # ... or selected directly by the complement of B's own test
+    ok = ok or bool(find(loop, (
+        f"tuple(($d for $i, $d in enumerate({descrs}) if are_shape_components_equal("
+        f"{argv}.shape[$i], {ep}._access_descr_to_axis_len()[$d])))")))
     c.check(ok, "R06-SQUEEZE", "EinsumWithNoBroadcastsRewriter.map_einsum",
             "drops-descriptors-of-squeezed-axes", m.loc(m.module_of(me), me),
             "the access descriptors kept are not exactly those of the axes that are "
